@@ -37,7 +37,7 @@ TReset ==
   /\ tlog' = <<>> /\ tpre' = <<>> /\ lastStop' = <<>> /\ ops' = <<>>
   /\ UNCHANGED live
 
-TInit == IsEv("Init") /\ Consume /\ PluginInit(Ev.serial, Ev.id)
+TInit == IsEv("Init") /\ Consume /\ PluginInitCg(Ev.serial, Ev.id, Ev.cg)
 TDtor == IsEv("Dtor") /\ Consume /\ PluginDtor(Ev.serial)
 
 \* events that carry no engine state (hook object life cycle is checked by KillAction)
